@@ -268,6 +268,12 @@ func runC01(r *rt.Runner) {
 		"errordict /typecheck get exec", "errordict { exch pop exec } forall", "errordict /handleerror get exec errordict /interrupt get exec",
 		"{ currentfile eexec\n< { end } exec", "currentfile eexec\n7b203c207b20656e64207d2065786563 } exec",
 		"/CIDInit /ProcSet findresource begin begincmap 2 begincidrange <00> <01> 1 (x) <05> 2 endcidrange",
+		// a section that ends with a body still open, started from inside a looping operator
+		"{ currentfile eexec } loop\n"+hexSection("{ "),
+		"1000000000 { currentfile eexec } repeat\n"+hexSection("1 { 2 "),
+		"0 1 1000000000 { pop currentfile eexec } for\n"+hexSection("{ { "),
+		"[ 1 2 3 ] { pop currentfile eexec } forall 7\n"+hexSection("/x { 1 "),
+		"/ee { currentfile eexec } def { ee } loop\n"+hexSection("[ { "),
 	)
 	for _, text := range shapes {
 		text := text
@@ -321,13 +327,31 @@ func runC01(r *rt.Runner) {
 			for i, n := 0, rng.IntN(4); i < n; i++ {
 				file.WriteString("5 dict begin ")
 			}
-			file.WriteString(words(rng.IntN(4)) + "\ncurrentfile eexec\n")
+			file.WriteString(words(rng.IntN(4)) + "\n")
+			// the section is started at the top level, or from inside a looping
+			// operator or a procedure (which then goes on when the section has ended)
+			switch rng.IntN(8) {
+			case 0:
+				file.WriteString("{ currentfile eexec } loop\n")
+			case 1:
+				file.WriteString("1000000 { currentfile eexec } repeat\n")
+			case 2:
+				file.WriteString("0 1 1000000 { pop currentfile eexec } for\n")
+			case 3:
+				file.WriteString("/ee { currentfile eexec } def ee\n")
+			default:
+				file.WriteString("currentfile eexec\n")
+			}
 			body := words(rng.IntN(6))
 			if rng.IntN(2) == 0 {
 				// more dictionaries popped inside the section than it pushed
 				body += strings.Repeat(" end", rng.IntN(6)) + " " + words(rng.IntN(3))
 			}
 			plain := []byte(body + " currentfile closefile\n")
+			if rng.IntN(4) == 0 {
+				// the input ends inside the section, possibly with a body still open
+				plain = []byte(body + []string{"", " { ", " { { 1 ", " [ ", " << /a ", " ( "}[rng.IntN(6)])
+			}
 			bm := newPairBitmap()
 			lay := layoutSection(rng, plain, bm, rng.IntN(4) == 0)
 			file.Write(lay.text)
